@@ -48,9 +48,9 @@ theorem sendSd_cases (s : Stack) (es : List SDEntry) (d : Dest) (hne : es ≠ []
 @[simp] theorem setInst_tm (s : Stack) (i : Nat) (x : Instance) : (s.setInst i x).tm = s.tm := rfl
 @[simp] theorem setInst_outs (s : Stack) (i : Nat) (x : Instance) : (s.setInst i x).outs = s.outs := rfl
 @[simp] theorem setInst_loop (s : Stack) (i : Nat) (x : Instance) : (s.setInst i x).loop = s.loop := rfl
-@[simp] theorem setTask_tm (s : Stack) (i : Nat) (x : TaskSt) : (s.setTask i x).tm = s.tm := rfl
-@[simp] theorem setTask_outs (s : Stack) (i : Nat) (x : TaskSt) : (s.setTask i x).outs = s.outs := rfl
-@[simp] theorem setTask_loop (s : Stack) (i : Nat) (x : TaskSt) : (s.setTask i x).loop = s.loop := rfl
+@[simp] theorem setTask_tm (s : Stack) (i : Tid) (x : TaskSt) : (s.setTask i x).tm = s.tm := rfl
+@[simp] theorem setTask_outs (s : Stack) (i : Tid) (x : TaskSt) : (s.setTask i x).outs = s.outs := rfl
+@[simp] theorem setTask_loop (s : Stack) (i : Tid) (x : TaskSt) : (s.setTask i x).loop = s.loop := rfl
 @[simp] theorem callSoon_tm (s : Stack) (cb : Cb) : (s.callSoon cb).tm = s.tm := rfl
 @[simp] theorem callLater_tm (s : Stack) (d : Nat) (cb : Cb) : (s.callLater d cb).1.tm = s.tm := rfl
 
